@@ -231,12 +231,8 @@ def emit() -> str:
     if not (u(body[0]) == "super()._update_fix_status()" and isinstance(body[1], ast.If)
             and u(body[1].test) == "self._fixing_countdown is None" and u(body[1].body[0]) == "self.restore_backup()"):
         raise ValueError("_update_fix_status: restore-after-fix shape")
-    # guards of backup/restore
-    for m in ("backup_database", "restore_backup"):
-        f = find_method(dbs, m)
-        first = [s for s in f.body if not (isinstance(s, ast.Expr) and isinstance(s.value, ast.Constant))][0]
-        if not (isinstance(first, ast.If) and u(first.test) == "not self._can_perform_action()" and u(first.body[0]) == "return False"):
-            raise ValueError(f"{m}: does not start with the _can_perform_action guard")
+    # (the guards of backup_database / restore_backup are no longer shape-checked here: both methods are translated statement by
+    # statement - helpers inlined - by database_tr.py and proved equal to the model, C17_tr_backup / C17_tr_restore)
     # software.py
     sw = class_def(sw_tree, "Software")
     io = class_def(sw_tree, "IOSoftware")
